@@ -249,6 +249,11 @@ pub fn number_templates() -> Vec<&'static str> {
     "[for i in [1] return i, N + 1]",
     "[some i in [1] satisfies i = 1, N / 1]",
     "[[1, 2][item > 1], N - 1]",
+    // ... after an index into a list of contexts whose entries are spelled like the bound name
+    // (the keys are written as string literals: they are the entries' names, not occurrences of the bound name)
+    "[[{\"N\": 1000, k: 1}, {\"N\": 2000, k: 2}][1].k, N + 1]",
+    "if [{\"N\": 1000, k: 1}][1].k > 0 then N - 1 else 0",
+    "{k: [{\"N\": 1000, m: 1}][-1], m: N + 1}.m",
   ]
 }
 
